@@ -132,8 +132,11 @@ where
 fn handle<BIn>(req: &mut Request<BIn>) -> Option<ValidateSNIError> {
     let span = tracing::Span::current();
 
-    // Grab (and own) the host header value
-    let host: Option<Authority> = if req.version() == http::Version::HTTP_2 {
+    // Grab (and own) the host header value. HTTP/2 requests name the host in the
+    // `:authority` pseudo-header; when that is absent, the Host header applies.
+    let host: Option<Authority> = if req.version() == http::Version::HTTP_2
+        && req.uri().authority().is_some()
+    {
         req.uri().authority().cloned()
     } else {
         req.headers()
